@@ -325,3 +325,89 @@ func spawn() int {
 }
 
 var _ sync.Locker = (*Mutex)(nil)
+
+// ---- recording chooser (race-invisible; fixed arrays) -------------------------------------------
+
+// MaxTrace is the largest number of recorded choice points of one execution.
+const MaxTrace = 4096
+
+var (
+	recPrefix   [MaxTrace]int16
+	recPrefixN  int
+	recChoice   [MaxTrace]int16
+	recN        [MaxTrace]int8
+	recCurEn    [MaxTrace]bool
+	recThread   [MaxTrace]int8
+	recLen      int
+	recDiverged bool
+)
+
+// SetPrefix installs the choice prefix to replay in the next RunRecorded.
+//
+//go:norace
+func SetPrefix(prefix []int) {
+	if len(prefix) > MaxTrace {
+		panic("vhook: prefix too long")
+	}
+	recPrefixN = len(prefix)
+	for i, p := range prefix {
+		recPrefix[i] = int16(p)
+	}
+	recLen = 0
+	recDiverged = false
+}
+
+//go:norace
+func recordingChooser(enabled []int, curEnabled bool) int {
+	c := 0
+	if recLen < recPrefixN {
+		c = int(recPrefix[recLen])
+		if c >= len(enabled) {
+			recDiverged = true
+			c = 0
+		}
+	}
+	if recLen < MaxTrace {
+		recChoice[recLen] = int16(c)
+		recN[recLen] = int8(len(enabled))
+		recCurEn[recLen] = curEnabled
+		recThread[recLen] = int8(enabled[c])
+		recLen++
+	} else {
+		overrun = true
+	}
+	return c
+}
+
+// RunRecorded runs the bodies replaying the installed prefix and then taking choice 0 (continue
+// the running thread if enabled, else the lowest enabled id) at every later point.
+func RunRecorded(bodies []func()) Result {
+	return Run(bodies, recordingChooser)
+}
+
+// Trace is the recorded choice sequence of the last RunRecorded.
+type Trace struct {
+	Choice   []int
+	N        []int
+	CurEn    []bool
+	Thread   []int
+	Diverged bool
+}
+
+// LastTrace copies out the trace of the last RunRecorded.
+//
+//go:norace
+func LastTrace() Trace {
+	t := Trace{Diverged: recDiverged}
+	t.Choice = make([]int, recLen)
+	t.N = make([]int, recLen)
+	t.CurEn = make([]bool, recLen)
+	t.Thread = make([]int, recLen)
+	for i := 0; i < recLen; i++ {
+		t.Choice[i] = int(recChoice[i])
+		t.N[i] = int(recN[i])
+		t.CurEn[i] = recCurEn[i]
+		t.Thread[i] = int(recThread[i])
+	}
+	return t
+}
